@@ -226,9 +226,13 @@ impl<T: Tier> Cfg<T> for DB2 {
         let (ss, ds) = (scales::<T>(float), disps::<T>());
         // rotations: lattice codes in the exact tier (a lattice is selected by the caller), radians otherwise
         let angles: Vec<T> = if float { [0.7, -1.9, 2.6, 0.0].iter().map(|x| num_traits::cast::<f64, T>(*x).unwrap()).collect() } else { vec![T::int(1), T::int(-2), T::int(3), T::int(0)] };
-        (0..ss.len().max(angles.len()))
+        let mut g: Vec<Self::Tr> = (0..ss.len().max(angles.len()))
             .map(|i| Decomposed { scale: ss[i % ss.len()], rot: <Basis2<T> as Rotation2>::from_angle(Rad(angles[i % angles.len()])), disp: mk_v2([ds[i % ds.len()][0], ds[i % ds.len()][1]]) })
-            .collect()
+            .collect();
+        // a Basis2 of determinant -1 (what look_at / look_at_stable build on one side of `up`): orthogonal, inverse = transpose,
+        // but not its own adjugate
+        g.push(Decomposed { scale: T::q(3, 2), rot: Basis2::look_at_stable(mk_v2([T::q(3, 5), T::q(4, 5)]), true), disp: mk_v2([ds[1][0], ds[1][1]]) });
+        g
     }
     fn near_one(d: f64) -> Self::Tr {
         let c = |x: f64| num_traits::cast::<f64, T>(x).unwrap();
